@@ -400,6 +400,26 @@ _more("C19", "Hidden attributes take the boundary values 0, 1, 2^lm-1 in half of
       "against the challenge of their OWN sub-proof (floor(s/c) must still be >= 2^64 away, i.e. the blinding alone exceeds "
       "c * 2^64).", small_secrets_examined=1)
 
+_more("C02", "The exponent e re-encoded as e + r.")
+_more("C04", "Every scalar of the proof re-encoded as value + r.")
+_more("C05", "Shapes with more than 64 positions in the blind position space: (40, 24), (2, 70), (170, 1).")
+_more("C06", "Every scalar of the commitment proof re-encoded as value + r.")
+_more("C07", "VOLUME: 4 x 25000 (16 x 250000) BlindFactor::random draws: none zero, none repeated.", blind_factors_in_volume=50000)
+_more("C08", "Entry-point probes also over credentials with 170 (thorough: (2,170), 1400) messages.")
+_more("C09", "Signature octets as an ARGUMENT of proof_gen / blind_proof_gen: trailing / leading / missing octets must be refused "
+      "(control: the exact 80 octets are accepted). JSON round trips through from_str, from_value and from_reader.")
+_more("C12", "32-octet update values, half of them canonical scalar encodings.")
+_more("C13", "Two-field variants derivable without the key: (-e, v^-1), (-e, v^-1 - N), -e, -s; v + N and v - N are asserted (F18).")
+_more("C14", "The issuer also checks every proof for the EMPTY hidden set; JSON round trips through from_str / from_value / from_reader.")
+_more("C16", "Bounds swapped / point interval / negated; a proof made for the empty interval [b, a] must not verify against it.")
+_more("C17", "Proofs hiding 45 (70) attributes (searches bounded by a budget that is reported). CROSS-THREAD: the same statement proved on "
+      "4 threads at once under two commitment keys: no field of >= 128 bits repeats across proofs; (s - s') / (c - c') over every "
+      "pair of proofs is not a secret.", cross_thread_proofs=8)
+_more("C18", "JSON round trips through from_str / from_value / from_reader. The random helpers called on 6 threads at once: pooled over "
+      "all threads no output of random_bits(256) / rand_int / random_number / random_qr / random_prime(128) repeats.",
+      random_outputs_pooled_across_threads=1000)
+_more("C19", "Proofs hiding 45 (70) attributes; lookups of quotients among the secrets by binary search over a sorted index.")
+
 
 def post_C07(drv, res, binary, tier, seed):
     """Cross-process part of the history: the same fixed workload in N independent processes started
